@@ -372,6 +372,8 @@ struct Scenario {
     api: Api,
     max: usize,
     garbage: Garbage,
+    /// error code of scripted application-error replies (0: the node alternates 4096 / 6)
+    err_code: u32,
     script: Vec<Out>,
 }
 
@@ -387,6 +389,7 @@ impl Scenario {
             "api": self.api.name(),
             "max_attempts": self.max,
             "malformed": self.garbage.name(),
+            "error_code": self.err_code,
             "script": self.script.iter().map(|o| o.letter()).collect::<Vec<_>>(),
             "legend": "R refused, A accepted-then-closed, I closed-while-idle (answered, then closed idle), T silent-until-timeout, M malformed reply, E application error, S success",
         })
@@ -406,6 +409,7 @@ impl Scenario {
                 "bad-length" => Garbage::BadLength,
                 _ => return None,
             },
+            err_code: v["error_code"].as_u64().unwrap_or(0) as u32,
             script,
         })
     }
@@ -417,7 +421,7 @@ impl Scenario {
             self.max,
             letters(&self.script),
             if self.script.contains(&Out::Malformed) { format!(" malformed={}", self.garbage.name()) } else { String::new() }
-        )
+        ) + &(if self.err_code != 0 { format!(" error_code={}", self.err_code) } else { String::new() })
     }
 }
 
@@ -449,7 +453,7 @@ struct ScenObs {
 }
 
 fn run_single(sc: &Scenario) -> Result<ScenObs, String> {
-    let node = FakeNode::start("n0", sc.script.clone(), sc.garbage)?;
+    let node = FakeNode::start("n0", sc.script.clone(), sc.garbage, sc.err_code)?;
     let cfg = NodeConfig::new("127.0.0.1", node.port())
         .and_then(|c| c.with_name("n0"))
         .and_then(|c| c.with_timeout(NODE_TIMEOUT))
@@ -643,7 +647,10 @@ fn judge_single(sc: &Scenario, obs: &ScenObs) -> Vec<Viol> {
                 Realized::ReplyOk => obs.expected_replies.get(&reply.serial).is_some_and(|v| c.res == Res::Ok(v.clone())),
                 Realized::ReplyErr { code } => match &c.res {
                     Res::Server { code: got, msg } => {
-                        *got == code && obs.expected_errors.get(&reply.serial).is_some_and(|m| m == msg)
+                        // the client API can only name the codes of `ErrorCode`; any other wire code is
+                        // reported under a stand-in code (that mapping is the client's, not the fleet's)
+                        (*got == code || repe::ErrorCode::try_from(code).is_err())
+                            && obs.expected_errors.get(&reply.serial).is_some_and(|m| m == msg)
                     }
                     _ => false,
                 },
@@ -769,7 +776,7 @@ fn run_tags(ts: &TagScenario) -> Result<Vec<BcastObs>, String> {
     let mut nodes = Vec::new();
     let mut cfgs = Vec::new();
     for i in 0..TAG_NODES {
-        let n = FakeNode::start(&format!("n{i}"), vec![], Garbage::BadSpec)?;
+        let n = FakeNode::start(&format!("n{i}"), vec![], Garbage::BadSpec, 0)?;
         let cfg = NodeConfig::new("127.0.0.1", n.port())
             .and_then(|c| c.with_name(format!("n{i}")))
             .and_then(|c| c.with_timeout(TAG_NODE_TIMEOUT))
@@ -952,10 +959,29 @@ impl Case {
     }
 }
 
+/// Every protocol-level code, both reserved-range neighbours of the application base, and the extremes:
+/// an error *reply* of any code is a reply (the property distinguishes transport failures from replies,
+/// not one error code from another).
+const ERR_CODES: [u32; 14] = [1, 2, 3, 4, 5, 6, 7, 8, 9, 10, 4095, 4096, 4097, u32::MAX];
+
+fn code_scripts() -> Vec<Vec<Out>> {
+    let mut v = vec![vec![Out::AppErr]];
+    for a in ALPHABET {
+        for b in ALPHABET {
+            if a == Out::AppErr || b == Out::AppErr {
+                v.push(vec![a, b]);
+            }
+        }
+    }
+    v
+}
+
 #[derive(Clone, Debug)]
 enum Block {
     Single { kind: Kind, api: Api, max: usize, len: usize, garbage: Garbage },
     Tags { kind: Kind },
+    /// every error code of `ERR_CODES` x every script of length 1..=2 that contains an application error
+    Codes { kind: Kind, api: Api, max: usize },
 }
 
 impl Block {
@@ -963,6 +989,7 @@ impl Block {
         match self {
             Block::Single { len, .. } => crate::par::pow(ALPHABET.len() as u64, *len as u32),
             Block::Tags { .. } => crate::par::pow(1 << TAGS.len(), TAG_NODES as u32),
+            Block::Codes { .. } => (ERR_CODES.len() * code_scripts().len()) as u64,
         }
     }
     fn case(&self, i: u64) -> Case {
@@ -977,8 +1004,14 @@ impl Block {
                     api: *api,
                     max: *max,
                     garbage: *garbage,
+                    err_code: 0,
                     script: d.iter().map(|x| ALPHABET[*x as usize]).collect(),
                 })
+            }
+            Block::Codes { kind, api, max } => {
+                let scripts = code_scripts();
+                let (ci, si) = ((i as usize) / scripts.len(), (i as usize) % scripts.len());
+                Case::Single(Scenario { kind: *kind, api: *api, max: *max, garbage: Garbage::BadSpec, err_code: ERR_CODES[ci], script: scripts[si].clone() })
             }
             Block::Tags { kind } => {
                 let mut d = Vec::new();
@@ -1003,6 +1036,16 @@ impl Plan {
         let mut blocks = Vec::new();
         for kind in [Kind::Blocking, Kind::Async] {
             blocks.push(Block::Tags { kind });
+        }
+        for max in 2..=max_hi {
+            for kind in [Kind::Blocking, Kind::Async] {
+                for api in [Api::Json, Api::Message] {
+                    if api == Api::Message && max > 2 && tier == Tier::Quick {
+                        continue;
+                    }
+                    blocks.push(Block::Codes { kind, api, max });
+                }
+            }
         }
         // simplest first: by length, then max_attempts, fleet, API
         for len in 0..=max_hi + 2 {
